@@ -24,7 +24,7 @@ func newGenCtx(c *Check, co *Corpus) *genCtx {
 	g := &genCtx{c: c, co: co, funcs: co.allFuncs(), byFam: map[string]map[string]*FuncInfo{}, irs: map[*types.Func]*FuncIR{}}
 	for fn, fi := range g.funcs {
 		fam, role := familyRole(fn)
-		if role == "" {
+		if role == "" || isMetaPkg(fi.Pkg.Name) {
 			continue
 		}
 		// families are per package (split-internal corpora have many packages)
@@ -35,6 +35,11 @@ func newGenCtx(c *Check, co *Corpus) *genCtx {
 		g.byFam[key][role] = fi
 	}
 	return g
+}
+
+// isMetaPkg: registry/factory packages of a generated tree (C17's subject, not type families).
+func isMetaPkg(name string) bool {
+	return name == "metainternal" || name == "meta" || strings.HasPrefix(name, "factory") || name == "constants"
 }
 
 func (g *genCtx) ir(fi *FuncInfo) *FuncIR {
